@@ -46,7 +46,7 @@ Mat<T, R, C> f_mul(int const mode, Mat<T, R, N> const &a, Mat<T, N, C> const &b)
   return with_mat<T, R, N>(mode & 1, a, [&](auto const &x) {
     return with_mat<T, N, C>((mode >> 1) & 1, b, [&](auto const &y) {
       auto const p = x * y;
-      static_assert(std::is_same_v<std::remove_cv_t<decltype(p)>, smat<T, R, C>>);
+      VERIF_TYPE_FACT((std::is_same_v<std::remove_cv_t<decltype(p)>, smat<T, R, C>>), "std::is_same_v<std::remove_cv_t<decltype(p)>, smat<T, R, C>>");
       return to_arr(p);
     });
   });
@@ -73,7 +73,7 @@ Vec<T, R> f_matvec(int const mode, Mat<T, R, C> const &a, Vec<T, C> const &v)
   return with_mat<T, R, C>(mode & 1, a, [&](auto const &x) {
     return with_vec<T, C>((mode >> 1) % 3, v, [&](auto const &y) {
       auto const p = x * y;
-      static_assert(std::is_same_v<std::remove_cv_t<decltype(p)>, svec<T, R>>);
+      VERIF_TYPE_FACT((std::is_same_v<std::remove_cv_t<decltype(p)>, svec<T, R>>), "std::is_same_v<std::remove_cv_t<decltype(p)>, svec<T, R>>");
       return to_arr(p);
     });
   });
@@ -99,7 +99,7 @@ void check_minor_one(int const mode, Mat<T, R, C> const &a)
   constexpr std::size_t dr = I / C, dc = I % C;
   auto const got = with_mat<T, R, C>(mode & 1, a, [&](auto const &x) {
     auto const m = fcppt::math::matrix::delete_row_and_column<dr, dc>(x);
-    static_assert(std::is_same_v<std::remove_cv_t<decltype(m)>, smat<T, R - 1, C - 1>>);
+    VERIF_TYPE_FACT((std::is_same_v<std::remove_cv_t<decltype(m)>, smat<T, R - 1, C - 1>>), "std::is_same_v<std::remove_cv_t<decltype(m)>, smat<T, R - 1, C - 1>>");
     return to_arr(m);
   });
   auto const want = r_minor<T, R, C>(a, dr, dc);
@@ -165,7 +165,7 @@ void check_addressing(int const mode, Mat<T, R, C> const &a, std::index_sequence
 {
   bool const ok = with_mat<T, R, C>(mode & 1, a, [&](auto const &m) {
     using M = std::remove_cvref_t<decltype(m)>;
-    static_assert(M::rows() == R && M::columns() == C);
+    VERIF_TYPE_FACT((M::rows() == R && M::columns() == C), "M::rows() == R && M::columns() == C");
     return (address_one<T, R, C, I>(m, a) && ...);
   });
   if (!ok) verif::fail("matrix::at_r_c/at_r/get_unsafe/mRC|vs-array|" + lbl<R, C>(), std::string(storage_name(mode & 1)) + " matrix " + show_arr(a, C) + ": an element accessor disagrees with the row-major array");
